@@ -1401,6 +1401,10 @@ def main():
     run.note("skipped_families", sorted(skip))
     run.note("objects_per_kind", {k[5:]: n for k, n in run.monitors.items() if k.startswith("kind:")})
     run.note("roundtrip_paths", {k[5:]: n for k, n in run.monitors.items() if k.startswith("path:")})
+    # ---- history workloads: objects used, modified through their setters / re-used, used again (vf/history.py) ----
+    from vf.sandbox import run_extra as _run_extra
+    from vf.common import seed as _seed, tier as _tier
+    _run_extra(run, "vf.history:h_traj_system_vs_script", [{"seed": _seed(), "idx": _i} for _i in range(640 if _tier() == "thorough" else 64)], cpu_budget=60, kind_prefix="history: ")
     return run.finish()
 
 
